@@ -22,3 +22,5 @@ def run(check):
     check.run_rule('C11.R2b', lambda c: rule_annotation_pairing(c, 'C11.R2'))
     check.run_rule('C11.R3', lambda c: rule_evaluation_context(c, 'C11.R3'))
     check.run_rule('C11.R4', lambda c: rule_annotate(c, 'C11.R4'))
+    from ..rules_classes import rule_no_rewrap_of_existing
+    check.run_rule('C11.R4b', lambda c: rule_no_rewrap_of_existing(c, 'C11.R4'))
